@@ -181,7 +181,7 @@ impl CheckImpl for C18 {
         let tuples = acc.sets.get("outcome_tuples").map(|s| s.len()).unwrap_or(0) as u64;
         json!({
             "distinct_nontrivial": tuples,
-            "rule": format!("Cases = (a) exhaustive single-fault enumeration over {} enumeration groups (30 serialisable types x 5 sender/receiver capacity pairs x {} layouts{}): every truncation point, every header field x boundary dictionary, every single header bit, reader/writer hard error at every offset, write_zero, wrap-around and consistent (product-preserving) multi-field corruptions, zeroed/lost blocks, trailing garbage, benign short/EINTR patterns; (b) {} seeded random histories of 4-12 operations (craft/write/damage/read/set_size/realloc/probe) over 1-3 objects (one history in forty on megabyte-sized objects). distinct_nontrivial counts distinct (type, operation, fault kind, model verdict, offset class, outcome, error kind) tuples observed; a case is non-trivial when it executed at least one real read_from or write_to.", enum_groups(l), l, if small {", small layouts"} else {""}, r),
+            "rule": format!("Cases = (a) exhaustive single-fault enumeration over {} enumeration groups (30 serialisable types x 6 sender/receiver capacity pairs x {} layouts{}): every truncation point, every header field x boundary dictionary, every single header bit, reader/writer hard error at every offset, write_zero, wrap-around and consistent (product-preserving) multi-field corruptions, zeroed/lost blocks, trailing garbage, benign short/EINTR patterns; (b) {} seeded random histories of 4-12 operations (craft/write/damage/read/set_size/realloc/probe) over 1-3 objects (one history in forty on megabyte-sized objects). distinct_nontrivial counts distinct (type, operation, fault kind, model verdict, offset class, outcome, error kind) tuples observed; a case is non-trivial when it executed at least one real read_from or write_to.", enum_groups(l), l, if small {", small layouts"} else {""}, r),
             "assumptions": [
                 "the model decoder (sim/src/c18/schema.rs, written from the wire grammar) is the reference for MustErr/MustOk",
                 "receiver state is observed through its own fault-free write_to plus public fields where they exist",
